@@ -33,25 +33,31 @@ def Cfg.valid (c : Cfg) : Option Deny :=
 
 def strField (s : Bytes) : Bytes := be16 s.length ++ s
 
-/-- `Config.newCONNREQ(clientID)` -/
-def Cfg.connreq (c : Cfg) (clientId : Bytes) : Bytes :=
-  let hasUser := !c.userName.isEmpty || c.password.isSome
-  let size := 12 + clientId.length
-    + (if hasUser then 2 + c.userName.length else 0)
-    + (match c.password with | some p => 2 + p.length | none => 0)
-    + (match c.will.message with | some m => 4 + c.will.topic.length + m.length | none => 0)
-  let flags : Nat :=
-    (if hasUser then 128 else 0) + (if c.password.isSome then 64 else 0)
+def Cfg.hasUser (c : Cfg) : Bool := !c.userName.isEmpty || c.password.isSome
+
+/-- the connect flags byte of `newCONNREQ` -/
+def Cfg.connectFlags (c : Cfg) : Nat :=
+  (if c.hasUser then 128 else 0) + (if c.password.isSome then 64 else 0)
     + (match c.will.message with
        | some _ => (if c.will.retain then 32 else 0)
                    + (if c.will.exactlyOnce then Facts.exactlyOnceLevel * 8 else if c.will.atLeastOnce then Facts.atLeastOnceLevel * 8 else 0) + 4
        | none => 0)
     + (if c.cleanSession then 2 else 0)
-  [UInt8.ofNat (Facts.typeCONNECT * 16)] ++ encodeVarint size
-    ++ [0, 4, 0x4D, 0x51, 0x54, 0x54, 4, UInt8.ofNat flags] ++ be16 c.keepAlive
+
+/-- the remaining length of `newCONNREQ` -/
+def Cfg.connectSize (c : Cfg) (clientId : Bytes) : Nat :=
+  12 + clientId.length
+    + (if c.hasUser then 2 + c.userName.length else 0)
+    + (match c.password with | some p => 2 + p.length | none => 0)
+    + (match c.will.message with | some m => 4 + c.will.topic.length + m.length | none => 0)
+
+/-- `Config.newCONNREQ(clientID)` -/
+def Cfg.connreq (c : Cfg) (clientId : Bytes) : Bytes :=
+  [UInt8.ofNat (Facts.typeCONNECT * 16)] ++ encodeVarint (c.connectSize clientId)
+    ++ [0, 4, 0x4D, 0x51, 0x54, 0x54, 4, UInt8.ofNat c.connectFlags] ++ be16 c.keepAlive
     ++ strField clientId
     ++ (match c.will.message with | some m => strField c.will.topic ++ strField m | none => [])
-    ++ (if hasUser then strField c.userName else [])
+    ++ (if c.hasUser then strField c.userName else [])
     ++ (match c.password with | some p => strField p | none => [])
 
 /-- first buffer of `publishPacket(buf, message, topic, packetID, head)`; the
